@@ -265,6 +265,12 @@ func (c *TermCtx) Sub(a, b *Term) *Term {
 	if a == b {
 		return c.Int64(0)
 	}
+	if b.op == "-" && len(b.args) == 2 && b.args[0] == a {
+		return b.args[1] // a - (a - x) = x
+	}
+	if a.op == "+" && len(a.args) == 2 && a.args[0] == b {
+		return a.args[1] // (b + x) - b = x
+	}
 	t := c.nary("-", SInt, a, b)
 	if t.lo == nil && t.hi == nil {
 		t.lo, t.hi = bsub(a.lo, b.hi), bsub(a.hi, b.lo)
@@ -751,7 +757,6 @@ const smtPrelude = `(set-option :produce-models true)
 (declare-fun ufhash (Int) Int)
 (declare-fun itoa (Int) Int)
 (declare-fun strlen (Int) Int)
-(assert (forall ((x Int)) (>= (strlen x) 0)))
 `
 
 func (t *Term) expr() string {
@@ -892,7 +897,13 @@ func (c *TermCtx) flAxioms(out *strings.Builder) {
 				fmt.Fprintf(out, "(assert (=> (and (>= %s 0.0) (>= %s 1.0)) (>= %s %s)))\n", x, y, r, x)
 				fmt.Fprintf(out, "(assert (=> (and (>= %s 0.0) (>= %s 1.0)) (>= %s %s)))\n", y, x, r, y)
 			}
-			n = len(c.anchors)
+			// linear instances against every representable constant k in scope:
+			//   x >= 0, y >= k  =>  p >= k*x      x >= 0, y <= k  =>  p <= k*x   (and with x, y swapped)
+			for ; n < len(c.anchors); n++ {
+				k := smtRat(c.anchors[n])
+				fmt.Fprintf(out, "(assert (=> (>= %s 0.0) (and (=> (>= %s %s) (>= %s (* %s %s))) (=> (<= %s %s) (<= %s (* %s %s))))))\n", x, y, k, r, k, x, y, k, r, k, x)
+				fmt.Fprintf(out, "(assert (=> (>= %s 0.0) (and (=> (>= %s %s) (>= %s (* %s %s))) (=> (<= %s %s) (<= %s (* %s %s))))))\n", y, x, k, r, k, y, x, k, r, k, y)
+			}
 		}
 		c.flAnchored[t.id] = len(c.anchors)
 	}
@@ -902,6 +913,12 @@ func (c *TermCtx) flAxioms(out *strings.Builder) {
 				a, b := fls[i], fls[j]
 				fmt.Fprintf(out, "(assert (and (=> (<= %s %s) (<= %s %s)) (=> (<= %s %s) (<= %s %s))))\n",
 					a.args[0].name, b.args[0].name, a.name, b.name, b.args[0].name, a.args[0].name, b.name, a.name)
+				// a rounded value is itself representable: rounding cannot cross it
+				//   e_a <= b => a <= b,  e_a >= b => a >= b   (and with a, b swapped)
+				fmt.Fprintf(out, "(assert (and (=> (<= %s %s) (<= %s %s)) (=> (>= %s %s) (>= %s %s))))\n",
+					a.args[0].name, b.name, a.name, b.name, a.args[0].name, b.name, a.name, b.name)
+				fmt.Fprintf(out, "(assert (and (=> (<= %s %s) (<= %s %s)) (=> (>= %s %s) (>= %s %s))))\n",
+					b.args[0].name, a.name, b.name, a.name, b.args[0].name, a.name, b.name, a.name)
 			}
 		}
 		c.flPairs = len(fls)
